@@ -13,10 +13,33 @@ be opened the call fails (`Op.failed`) after printing its line.
 -/
 namespace Ructe
 
+/-- a directory entry as the operating system shows it: a regular file, a directory, or a symbolic link
+(with the bytes of the file it resolves to; empty when it resolves to no file) -/
+inductive IEntry where
+  | file (name : Bytes) (content : Bytes)
+  | dir (name : Bytes) (entries : List IEntry)
+  | link (name : Bytes) (content : Bytes)
+
+/-- how `handle_entries` sees a listing: `DirEntry::file_type` does not follow links, so a link is "not a
+directory" and is treated like a file — opened (through the link) if its name has a template suffix -/
+def viewTemplates : List IEntry → List Entry
+  | [] => []
+  | .file n c :: r => .file n c :: viewTemplates r
+  | .link n c :: r => .file n c :: viewTemplates r
+  | .dir n es :: r => .dir n (viewTemplates es) :: viewTemplates r
+
+/-- how `add_files` / `add_files_as` see a listing: a link is neither `is_file()` nor `is_dir()` and is
+skipped -/
+def viewStatics : List IEntry → List Entry
+  | [] => []
+  | .file n c :: r => .file n c :: viewStatics r
+  | .link _ _ :: r => viewStatics r
+  | .dir n es :: r => .dir n (viewStatics es) :: viewStatics r
+
 /-- what is at a path: a file's bytes, or a directory's whole subtree (entries in `read_dir` order) -/
 inductive Node where
   | file (content : Bytes)
-  | dir (entries : List Entry)
+  | dir (entries : List IEntry)
 deriving Inhabited
 
 abbrev InFS := Bytes → Option Node
@@ -38,7 +61,7 @@ def pathFor (base p : Bytes) : Bytes := if p.head? = some 47 then p else joinPat
 def SOp.resolve (base : Bytes) (t : InFS) : SOp → Op
   | .compileTemplates d =>
     match t d with
-    | some (.dir es) => .compileTemplates d es
+    | some (.dir es) => .compileTemplates d (viewTemplates es)
     | _ => .failed false d
   | .addFile p =>
     let p := pathFor base p
@@ -51,13 +74,13 @@ def SOp.resolve (base : Bytes) (t : InFS) : SOp → Op
   | .addFiles d =>
     let d := pathFor base d
     match t d with
-    | some (.dir es) => .addFiles d es
+    | some (.dir es) => .addFiles d (viewStatics es)
     | _ => .failed true d
   | .addFileAs p u => .addFileAs (pathFor base p) u  -- the file is opened by rustc (`include_bytes!`), not by the run
   | .addFilesAs d to =>
     let d := pathFor base d
     match t d with
-    | some (.dir es) => .addFilesAs d to es
+    | some (.dir es) => .addFilesAs d to (viewStatics es)
     | _ => .failed true d
   | .addFileData p data => .addFileData (pathFor base p) data
 
